@@ -8,7 +8,8 @@ def race_stress(res, work, tier):
     """Concurrent form of 'exactly one of several racing deploys succeeds' (real scheduler)."""
     rounds = 12 if tier == "quick" else 120
     rc, out = go_test(work, ["common_test.go", "sim_test.go", "simrun_test.go", "assets_test.go", "c05_race_test.go"],
-                      "^TestVerifC05Race$", {"VERIF_OUT": work.path("race.jsonl"), "VERIF_ROUNDS": str(rounds)}, timeout=900, synctest=True)
+                      "^TestVerifC05Race$", {"VERIF_OUT": work.path("race.jsonl"), "VERIF_ROUNDS": str(rounds), "GODEBUG": "", "GOGC": "100"},
+                      timeout=900, synctest=True)   # synctest only so that the shared harness files compile; real scheduler
     if rc != 0 or not os.path.exists(work.path("race.jsonl")):
         return False, [], out
     rows = read_jsonl(work.path("race.jsonl"))
